@@ -56,7 +56,12 @@ class Outcome:
         self.hist["disagreement"] += 1
 
     def fail(self, case, why):
-        if len(self.oracle_failures) < 200:
+        # keep up to 60 failures per failure class (leading [tag] or leading words) so that a large
+        # class (e.g. one matched by a known finding) can never crowd out a different failure
+        cls = why.split("]")[0] if why.startswith("[") else " ".join(why.split()[:4])
+        self._per_class = getattr(self, "_per_class", Counter())
+        self._per_class[cls] += 1
+        if self._per_class[cls] <= 60 and len(self.oracle_failures) < 3000:
             self.oracle_failures.append({"case": case, "why": why})
         self.hist["oracle_failure"] += 1
 
